@@ -1336,6 +1336,35 @@ fn line_char_to_offset(src: &str, line: usize, character: usize) -> usize {
     offset
 }
 
+/// Verification hook: evaluate the position conversion functions.
+#[cfg(wilfred_garden_verif)]
+pub(crate) fn verif_lsp_op(op: &str, rest: &str) -> Result<String, String> {
+    let parts: Vec<&str> = rest.split(' ').collect();
+    let src = crate::verif_hooks::verif_unhex(parts.first().copied().unwrap_or(""))?;
+    let num = |i: usize| -> Result<usize, String> {
+        parts
+            .get(i)
+            .ok_or("missing argument".to_owned())?
+            .parse::<usize>()
+            .map_err(|e| e.to_string())
+    };
+    match op {
+        "lsp_o2p" => {
+            let p = offset_to_lsp_position(&src, num(1)?, num(2)?);
+            Ok(format!("{} {}", p.line, p.character))
+        }
+        "lsp_lc2o" => Ok(format!("{}", line_char_to_offset(&src, num(1)?, num(2)?))),
+        "lsp_whole" => {
+            let r = whole_document_range(&src);
+            Ok(format!(
+                "{} {} {} {}",
+                r.start.line, r.start.character, r.end.line, r.end.character
+            ))
+        }
+        _ => Err("unknown lsp op".to_owned()),
+    }
+}
+
 /// Serialize a response and append it to the outgoing messages.
 fn push_response<T: Serialize>(
     outgoing: &mut Vec<serde_json::Value>,
